@@ -188,18 +188,28 @@ func (r *R) govValue(depth int) gv {
 		var xs []at.Object
 		var cs []string
 		for i := 0; i < n; i++ {
+			if r.chance(0.15) { // a nil entry: reaches parseVal as a nil interface, stored as nil
+				xs = append(xs, nil)
+				cs = append(cs, "None")
+				continue
+			}
 			t := r.objTree(o).sortKeys()
 			xs = append(xs, t.toObject())
-			cs = append(cs, kvsValCoq(t))
+			cs = append(cs, "(Some "+kvsValCoq(t)+")")
 		}
 		return gv{xs, "(GSliceObj " + coqList(cs) + ")", "[]Object"}
 	case 7:
 		var xs []at.List
 		var cs []string
 		for i := 0; i < n; i++ {
+			if r.chance(0.15) {
+				xs = append(xs, nil)
+				cs = append(cs, "None")
+				continue
+			}
 			t := r.listTree(o).sortKeys()
 			xs = append(xs, t.toList())
-			cs = append(cs, coqList(coqVals(t.L)))
+			cs = append(cs, "(Some "+coqList(coqVals(t.L))+")")
 		}
 		return gv{xs, "(GSliceList " + coqList(cs) + ")", "[]List"}
 	case 8:
@@ -255,17 +265,27 @@ func (r *R) govValue(depth int) gv {
 		case 0:
 			m := map[string]at.Object{}
 			for i, k := range keys {
+				if r.chance(0.15) {
+					m[k] = nil
+					items[i] = "(" + coqBytes(k) + ",None)"
+					continue
+				}
 				t := r.objTree(o).sortKeys()
 				m[k] = t.toObject()
-				items[i] = "(" + coqBytes(k) + "," + kvsValCoq(t) + ")"
+				items[i] = "(" + coqBytes(k) + ",Some " + kvsValCoq(t) + ")"
 			}
 			return gv{m, "(GMapObj " + coqList(items) + ")", "map[string]Object"}
 		case 1:
 			m := map[string]at.List{}
 			for i, k := range keys {
+				if r.chance(0.15) {
+					m[k] = nil
+					items[i] = "(" + coqBytes(k) + ",None)"
+					continue
+				}
 				t := r.listTree(o).sortKeys()
 				m[k] = t.toList()
-				items[i] = "(" + coqBytes(k) + "," + coqList(coqVals(t.L)) + ")"
+				items[i] = "(" + coqBytes(k) + ",Some " + coqList(coqVals(t.L)) + ")"
 			}
 			return gv{m, "(GMapList " + coqList(items) + ")", "map[string]List"}
 		case 2:
@@ -583,9 +603,97 @@ func genC13(r *R, n int, tier string, out *Out) {
 			t = r.objTree(o)
 		}
 		t.sortKeys()
+		// how the container is put together (its content is t either way): plainly; with one nested container stored a second
+		// time (the same instance at two places, no cycle); with the nested containers stored as derived structures
+		shape := "plain"
+		share := -1
+		var contIdx []int
+		if t.K == KList {
+			for j, e := range t.L {
+				if e.K == KList || e.K == KObj {
+					contIdx = append(contIdx, j)
+				}
+			}
+		} else {
+			for j, kv := range t.O {
+				if kv.V.K == KList || kv.V.K == KObj {
+					contIdx = append(contIdx, j)
+				}
+			}
+		}
+		if len(contIdx) > 0 && r.chance(0.4) {
+			if r.chance(0.5) {
+				shape = "shared"
+				share = pickOf(r, contIdx)
+				if t.K == KList {
+					t.L = append(t.L, t.L[share])
+				} else {
+					t.O = append(t.O, KV{"zz-shared", t.O[share].V}) // sorts last among the generated keys? re-sorted below
+					t.sortKeysShallow()
+					for j, kv := range t.O {
+						if kv.K != "zz-shared" && kv.V == t.O[indexOfKey(t, "zz-shared")].V {
+							share = j
+						}
+					}
+				}
+			} else {
+				shape = "derived"
+			}
+		}
+		wrap := func(x any) any { // a derived structure holding the same content
+			switch c := x.(type) {
+			case at.List:
+				m := &MyList{List: c}
+				m.Init(m)
+				if r.chance(0.3) {
+					m2 := &MyList2{MyList: m}
+					m2.Init(m2)
+					return m2
+				}
+				return m
+			case at.Object:
+				m := &MyObj{Object: c}
+				m.Init(m)
+				return m
+			}
+			return x
+		}
+		mk := func() any {
+			switch shape {
+			case "shared":
+				if t.K == KList {
+					l := vlist(t.L[:len(t.L)-1]...).toList()
+					return l.Add(l.Get(share))
+				}
+				ob := at.NewObject()
+				for _, kv := range t.O {
+					if kv.K != "zz-shared" {
+						ob.Set(kv.K, kv.V.toAny())
+					}
+				}
+				return ob.Set("zz-shared", ob.Get(t.O[share].K))
+			case "derived":
+				if t.K == KList {
+					l := at.NewList()
+					for _, e := range t.L {
+						l.Add(wrap(e.toAny()))
+					}
+					return l
+				}
+				ob := at.NewObject()
+				for _, kv := range t.O {
+					ob.Set(kv.K, wrap(kv.V.toAny()))
+				}
+				return ob
+			}
+			return t.toAny()
+		}
 		f := &failer{pred: true}
-		c := t.toAny()
+		c := mk()
 		before := canon(c)
+		if before != t.canon() {
+			f.fail("the container built as %q does not hold the intended content", shape)
+		}
 		var export, snapshot any
 		switch cc := c.(type) {
 		case at.List:
@@ -676,7 +784,7 @@ func genC13(r *R, n int, tier string, out *Out) {
 			}
 		}
 		// observations for the model are taken from a fresh container (the one above was mutated)
-		c2 := t.toAny()
+		c2 := mk()
 		var e2, s2 any
 		switch cc := c2.(type) {
 		case at.List:
@@ -690,9 +798,18 @@ func genC13(r *R, n int, tier string, out *Out) {
 			Pred:       f.pred, PredMsg: f.msg,
 			Nontrivial: t.size() >= 4,
 			Key:        t.canon(),
-			Tags:       []string{map[bool]string{true: "object", false: "list"}[t.K == KObj], fmt.Sprintf("size=%d", t.size()/4*4)},
+			Tags:       []string{map[bool]string{true: "object", false: "list"}[t.K == KObj], fmt.Sprintf("size=%d", t.size()/4*4), "shape=" + shape},
 		})
 	}
+}
+
+func indexOfKey(t *V, k string) int {
+	for j, kv := range t.O {
+		if kv.K == k {
+			return j
+		}
+	}
+	return -1
 }
 
 func mutateNative(x any) {
